@@ -58,7 +58,7 @@ def reply (l : Str) : String := "ok " ++ Driver.hexOfUnits l
 
 def runFormatter (f : Formatter) (evs : List Ev) (ns : List Str := []) : String :=
   match f with
-  | .xml c k r => reply (renderAll { r with cdataRepaired := XalanModel.Generated.C08.cdataCharsRepaired } (serialize cc c k evs))
+  | .xml c k r => if evs.all Ev.valid then reply (renderAll r (serialize cc c k evs)) else "ERR"
   | .text _ => reply (textMethod evs)
   | .html enc dsys dpub doIndent amount esc om =>
     match Html.serializeHtml { encoding := enc, doctypeSystem := dsys, doctypePublic := dpub, doIndent := doIndent,
